@@ -28,22 +28,28 @@ def pagesEqual (page : Nat) : (fuel : Nat) → List Nat → List Nat → Bool
   | 0, _, _ => true
   | fuel + 1, a, b =>
     let ca := a.take page
-    if ca = [] then true      -- read(a) returned 0: done
+    if ca = [] then (b.take page).isEmpty   -- read(a) returned 0: the second file must have ended too
     else
       let cb := b.take page
       if cb.length ≠ ca.length ∨ ca ≠ cb then false
       else pagesEqual page fuel (a.drop page) (b.drop page)
 
-/-- `zix_file_equals(path_a, path_b)` for two different paths: `none` = the file does not exist;
-`sameInode` = both paths lead to the same file.  When no page can be allocated the comparison
-runs through 512-byte stack buffers. -/
+/-- The core of `zix_file_equals` for two files that could be opened: contents `ca`, `cb`, and the sizes
+`sa`, `sb` that `fstat` REPORTS for them (procfs text files, FIFOs and devices report 0 whatever
+they hold).  `sameInode` = both paths lead to the same file.  Contents are compared when the
+reported sizes are equal or one of them is zero (a reported zero says nothing).  When no page can
+be allocated the comparison runs through 512-byte stack buffers. -/
+def fileEqualsSized (ca cb : List Nat) (sa sb : Nat) (sameInode : Bool) (page : Nat) (allocOk : Bool) : Bool :=
+  if sameInode then true
+  else if sa = sb ∨ sa = 0 ∨ sb = 0 then
+    pagesEqual (if allocOk then page else 512) (ca.length + 1) ca cb
+  else false
+
+/-- `zix_file_equals(path_a, path_b)` for two different paths naming ordinary files (the reported
+size is the length): `none` = the file does not exist. -/
 def fileEquals (a b : Option (List Nat)) (sameInode : Bool) (page : Nat) (allocOk : Bool) : Bool :=
   match a, b with
-  | some ca, some cb =>
-    if sameInode then true
-    else if ca.length = cb.length then
-      pagesEqual (if allocOk then page else 512) (ca.length + 1) ca cb
-    else false
+  | some ca, some cb => fileEqualsSized ca cb ca.length cb.length sameInode page allocOk
   | _, _ => false
 
 /-- The inode fast path of `zix_file_equals`: the two descriptors are taken for the same file when the
